@@ -5,7 +5,7 @@ use crate::props::c03::{run_connection, Case};
 use engine::{Outcome, Report, Src};
 
 pub const LEVEL: &str = "exploration";
-pub const RULE: &str = "case = (connector configuration with names / credentials drawn from empty, ASCII, Latin-1, CJK, combining, emoji and mixed strings whose UTF-8 and UTF-16 lengths straddle 15/16/32; screen sizes; layouts; server-assigned identifiers). Every byte the client writes during connect, activation and shutdown is parsed by the strict reference parsers (TPKT length, X.224 LI, BER/PER lengths, GCC block lengths, CS_CORE size and 32-byte NUL-terminated client name, cb* counts and terminators, totalLength / uncompressedLength, lengthSourceDescriptor, lengthCombinedCapabilities = 4 + sum, numberCapabilities, lengthCapability and specified capability sizes, numEvents) and decoded values are compared with the configuration. Non-trivial = a non-ASCII or over-long (> 15 UTF-16 units) string, or an identifier >= 0x80; distinct by hash of the case.";
+pub const RULE: &str = "case = (connector configuration with names / credentials drawn from empty, ASCII, Latin-1, CJK, combining, emoji and mixed strings whose UTF-8 and UTF-16 lengths straddle 15/16/32; screen sizes; layouts; server-assigned identifiers). Every byte the client writes during connect, activation and shutdown is parsed by the strict reference parsers (TPKT length, X.224 LI, BER/PER lengths, GCC block lengths, CS_CORE size and 32-byte NUL-terminated client name, cb* counts and terminators, totalLength / uncompressedLength, lengthSourceDescriptor, lengthCombinedCapabilities = 4 + sum, numberCapabilities, lengthCapability and specified capability sizes, numEvents) and decoded values are compared with the configuration. Section connection-request: x224::Client::connect for offered masks {0,1,2,3,8,0xB,0x10,0xFFFFFFFF} x restricted admin x blank credentials, the written request parsed strictly (TPKT length, LI, RDP_NEG_REQ flags / length / mask). Section ntlm-tokens: NEGOTIATE / AUTHENTICATE tokens against CHALLENGE messages whose MaxLen fields exceed Len. Non-trivial = a non-ASCII or over-long (> 15 UTF-16 units) string, or an identifier >= 0x80; distinct by hash of the case.";
 
 pub fn run(c: &Case) -> Outcome {
     let mut out = run_connection(c, true);
@@ -28,13 +28,66 @@ pub fn decode(s: &mut Src) -> Case {
     let mut cfg = gen_cfg(s);
     cfg.name = gen_string(s, 64);
     let profile = gen::gen_profile(s, cfg.nla);
-    Case { cfg, profile, chunk: 0 }
+    Case { cfg, profile, chunk: 0, stop_after: 0 }
+}
+
+/// the X.224 connection request of x224::Client::connect for every offered mask / mode, parsed strictly
+#[derive(serde::Serialize, serde::Deserialize, Hash, Clone, Debug)]
+pub struct CrCase {
+    pub mask: u32,
+    pub restricted: bool,
+    pub blank: bool,
+}
+
+pub fn run_cr(c: &CrCase) -> Outcome {
+    use crate::io::ChunkReader;
+    use rdp::core::{tpkt, x224};
+    use rdp::model::link::{Link, Stream};
+    let mut out = Outcome::new();
+    out.nontrivial(c.mask != 3 || c.restricted);
+    let (reader, _h, _e) = ChunkReader::new(vec![], vec![]);
+    let wrote = reader.written.clone();
+    let tp = tpkt::Client::new(Link::new(Stream::Raw(reader)));
+    let mut ntlm = rdp::nla::ntlm::Ntlm::new("d".into(), "u".into(), "p".into());
+    let (m, ra, bl) = (c.mask, c.restricted, c.blank);
+    let (r, _) = crate::util::call(move || x224::Client::connect(tp, m, false, Some(&mut ntlm), ra, bl).map(|_| ()));
+    if let crate::util::Res::Panic(p) = r {
+        crate::util::fail_panic(&mut out, "x224.connect", &p);
+        return out;
+    }
+    let w = wrote.borrow().clone();
+    match refimpl::wire::split_tpkt(&w) {
+        Ok((frames, used)) if frames.len() == 1 && used == w.len() => match refimpl::wire::parse_connection_request(frames[0]) {
+            Ok(cr) => {
+                let want_flags = if c.restricted { 1 } else { 0 };
+                if cr.neg != Some((want_flags, c.mask)) {
+                    out.fail("malformed:connection-request:negotiation", format!("RDP_NEG_REQ {:?} for mask {:#x} restricted {}", cr.neg, c.mask, c.restricted));
+                }
+            }
+            Err(e) => {
+                out.fail(format!("malformed:connection-request:{}", crate::props::c03::norm(&e.0)), format!("{} for mask {:#x} restricted {}: {}", e.0, c.mask, c.restricted, crate::util::hexs(&w)));
+            }
+        },
+        other => {
+            out.fail("malformed:connection-request:framing", format!("{:?}: {}", other.map(|x| x.1), crate::util::hexs(&w)));
+        }
+    }
+    out
 }
 
 pub fn check(rep: &Report) {
     rep.assume("client name truncation granularity is the UTF-16 code unit (a surrogate pair split at the cut is not flagged)");
     rep.assume("TS_SHAREDATAHEADER.uncompressedLength may follow either convention seen in the field (== totalLength, or payload + 4)");
     rep.random("connections", rep.tier.n(60_000, 3_000_000), 260, decode, run);
+    let mut crs = Vec::new();
+    for mask in [0u32, 1, 2, 3, 8, 0xB, 0x10, 0xFFFF_FFFF] {
+        for restricted in [false, true] {
+            for blank in [false, true] {
+                crs.push(CrCase { mask, restricted, blank });
+            }
+        }
+    }
+    rep.list("connection-request", crs, run_cr);
     // NTLM tokens: the strict MS-NLMP layout rules of the C15 verifier (offset/length pairs, MIC position, field encodings)
     rep.random("ntlm-tokens", rep.tier.n(20_000, 1_000_000), 200, crate::props::c15::decode, crate::props::c15::run);
     rep.require("connections", "non-ascii-name", 1000);
